@@ -76,4 +76,21 @@ def indexGroups (g : Graph) (roots : List Nat) : Except GraphErr (List (List Nat
   | .ok vis => kahn g vis
   | .error _ => .error .cycle
 
+/-! ## LEGACY (pinned tree before repair D3)
+
+The pinned `set_subtree_visibility` walked breadth-first and kept every node it had reached in one
+`active` set, reporting a cycle whenever a node was reached a second time - which also happens for a
+diamond. Kept as a checked counter-example only. -/
+
+def legacyWalk (g : Graph) : Nat → List Nat → List Nat → Except DErr (List Nat)
+  | 0, _, seen => .ok seen
+  | _ + 1, [], seen => .ok seen
+  | fuel + 1, n :: queue, seen =>
+    match (g.out n).find? (fun d => seen.contains d) with
+    | some d => .error (.cycle d)
+    | none => legacyWalk g fuel (queue ++ g.out n) (seen ++ g.out n)
+
+def setVisibleLegacy (g : Graph) (root : Nat) : Except DErr (List Nat) :=
+  legacyWalk g (dfsFuel g) [root] [root]
+
 end Monorail
